@@ -218,6 +218,11 @@ func runTxnIsolated(alpha []rop, seq []int) []string {
 		out = append(out, normalise(txnApply(st, alpha[oi], "#", i), "#"))
 	}
 	out = append(out, txnApply(st, rop{Kind: "iter"}, "#", 99), txnApply(st, rop{Kind: "riter"}, "#", 99))
+	for _, r := range out {
+		if strings.Contains(r, "ERR:") {
+			w.dirty.Store(true)
+		}
+	}
 	return out
 }
 
@@ -284,8 +289,12 @@ func runTxnDifferential(depth int) map[string]any {
 					run.Note("txn differential: %s %v did not return within %v (sequence %v)", who, o, opGuard, replay.Ops)
 					return
 				}
+				if strings.Contains(got, "ERR:") {
+					w.dirty.Store(true)
+				}
 				if normalise(got, tag) != want {
 					diffViolCount.Add(1)
+					w.dirty.Store(true)
 					key := "difftxn:" + who + ":" + opKindTxn(o)
 					if seesForeign(got, tag) {
 						key = "difftxn:isolation:" + who + ":" + opKindTxn(o)
